@@ -4,7 +4,9 @@
    C. the early exit of union_all;
    D. soundness of `allowed` for the positive fragment against every pre-fixpoint of the
       reference semantics' step operator, and against holds3;
-   E. the two reproduced defects as closed counterexamples to the full statement. *)
+   F. the model's fuel is sufficient; Check always has an outcome;
+   E. the two reproduced defects as closed counterexamples to the full statement;
+   G. data for the examples of Props/C01.v. *)
 From Coq Require Import List Bool Arith NArith Lia Permutation.
 From OFGA Require Import Sem.B3 Sem.B3Proofs Sem.Vocab Sem.Valid Sem.Semantics Sem.SemProofs Check.V1.
 Import ListNotations.
@@ -241,6 +243,32 @@ Proof.
   rewrite (excl2_val_partial _ _ _ Hne Hx), (HA a Ha), (HB b Hb); reflexivity.
 Qed.
 
+(* information order: children that report an error (or any undetermined outcome) in place of
+   their true value never corrupt a decision of the reducer *)
+Definition all_refine (A : oset) (t : b3) : Prop := forall x, In x A -> refines (val x) t.
+
+Theorem lift2_union2_refines : forall A B ta tb,
+  all_refine A ta -> all_refine B tb -> all_refine (lift2 union2 A B) (or3 ta tb).
+Proof.
+  intros A B ta tb HA HB x H. apply In_lift2 in H. destruct H as [a [b [Ha [Hb Hx]]]].
+  rewrite (union2_val _ _ _ Hx). apply or3_refines; [apply HA; exact Ha | apply HB; exact Hb].
+Qed.
+Theorem lift2_inter2_refines : forall A B ta tb,
+  all_refine A ta -> all_refine B tb -> all_refine (lift2 inter2 A B) (and3 ta tb).
+Proof.
+  intros A B ta tb HA HB x H. apply In_lift2 in H. destruct H as [a [b [Ha [Hb Hx]]]].
+  rewrite (inter2_val _ _ _ Hx). apply and3_refines; [apply HA; exact Ha | apply HB; exact Hb].
+Qed.
+Theorem lift2_excl2_refines_partial : forall A B ta tb,
+  omem AFc B = false ->
+  all_refine A ta -> all_refine B tb -> all_refine (lift2 excl2 A B) (diff3 ta tb).
+Proof.
+  intros A B ta tb Hc HA HB x H. apply In_lift2 in H. destruct H as [a [b [Ha [Hb Hx]]]].
+  assert (Hne : b <> AFc).
+  { intro He; subst b. apply omem_In in Hb. rewrite Hb in Hc; discriminate Hc. }
+  rewrite (excl2_val_partial _ _ _ Hne Hx). apply diff3_refines; [apply HA; exact Ha | apply HB; exact Hb].
+Qed.
+
 (* ================================================================== *)
 (* B. arrival order                                                    *)
 (* ================================================================== *)
@@ -349,3 +377,969 @@ Proof.
   - intros x [Hx|[]]; subst x; reflexivity.
   - rewrite and3_list_cons. simpl. apply lift2_inter2_all_val; assumption.
 Qed.
+
+(* ================================================================== *)
+(* C. union_all / inter_all                                            *)
+(* ================================================================== *)
+
+Lemma union2_AT_inv : forall a b, In AT (union2 a b) -> a = AT \/ b = AT.
+Proof. intros a b H; destruct a, b; simpl in H; in_cases H; try discriminate H; auto. Qed.
+Lemma inter2_AT_inv : forall a b, In AT (inter2 a b) -> a = AT /\ b = AT.
+Proof. intros a b H; destruct a, b; simpl in H; in_cases H; try discriminate H; auto. Qed.
+Lemma excl2_AT_inv : forall a b, In AT (excl2 a b) -> a = AT /\ (b = AFn \/ is_err b = true).
+Proof. intros a b H; destruct a, b; simpl in H; in_cases H; try discriminate H; auto. Qed.
+
+Lemma is_just_true_eq : forall s, is_just_true s = true -> s = [AT].
+Proof.
+  intros s H. destruct s as [|a [|b s]]; try discriminate H.
+  - destruct a; try discriminate H. reflexivity.
+  - destruct a; discriminate H.
+Qed.
+
+(* `allowed` comes out of a union only if some child can return `allowed` *)
+Lemma union_all_AT : forall hs,
+  In AT (fst (union_all hs)) -> exists h, In h hs /\ In AT (fst (h tt)).
+Proof.
+  induction hs as [|h hs IH]; simpl; intro H.
+  - destruct H as [H|[]]; discriminate H.
+  - destruct (h tt) as [s t] eqn:Hh. destruct (is_just_true s) eqn:Hj.
+    + apply is_just_true_eq in Hj. subst s. exists h. rewrite Hh. simpl; auto.
+    + destruct (union_all hs) as [s' t'] eqn:Hu. simpl in H, IH.
+      apply In_lift2 in H. destruct H as [a [b [Ha [Hb Hx]]]].
+      apply union2_AT_inv in Hx. destruct Hx as [Hx|Hx]; subst.
+      * exists h. rewrite Hh. simpl; auto.
+      * destruct (IH Hb) as [h' [Hin Hat]]. exists h'. auto.
+Qed.
+
+(* ... out of an intersection only if every child can *)
+Lemma inter_all_AT : forall hs,
+  In AT (fst (inter_all hs)) -> forall h, In h hs -> In AT (fst (h tt)).
+Proof.
+  induction hs as [|h hs IH]; simpl; intros H h' Hin; [destruct Hin|].
+  destruct (h tt) as [s t] eqn:Hh. destruct (inter_all hs) as [s' t'] eqn:Hu. simpl in H, IH.
+  apply In_lift2 in H. destruct H as [a [b [Ha [Hb Hx]]]].
+  apply inter2_AT_inv in Hx. destruct Hx as [Hxa Hxb]; subst.
+  destruct Hin as [Hin|Hin].
+  - subst h'. rewrite Hh. exact Ha.
+  - apply IH; assumption.
+Qed.
+
+(* the model's early exit (a child that can only be `allowed` ends the union) is an optimisation
+   of the model, not a behaviour: the full fold has the same outcome set *)
+Fixpoint union_all_full (hs : list (unit -> res)) : res :=
+  match hs with
+  | [] => ([AFn], notrig)
+  | h :: hs' =>
+      let '(s, t) := h tt in
+      let '(s', t') := union_all_full hs' in (lift2 union2 s s', tor t t')
+  end.
+
+Lemma union_all_full_nonempty : forall hs,
+  (forall h, In h hs -> fst (h tt) <> []) -> fst (union_all_full hs) <> [].
+Proof.
+  induction hs as [|h hs IH]; simpl; intro H; [discriminate|].
+  destruct (h tt) as [s t] eqn:Hh. destruct (union_all_full hs) as [s' t'] eqn:Hu. simpl.
+  apply lift2_nonempty; [exact union2_nonempty | |].
+  - specialize (H h (or_introl eq_refl)). rewrite Hh in H. exact H.
+  - simpl in IH. apply IH. intros h' Hin; apply H; right; exact Hin.
+Qed.
+
+Theorem union_all_early_exit : forall hs,
+  (forall h, In h hs -> fst (h tt) <> []) ->
+  seteq (fst (union_all hs)) (fst (union_all_full hs)).
+Proof.
+  induction hs as [|h hs IH]; simpl; intro H; [apply seteq_refl|].
+  assert (Hrest : forall h', In h' hs -> fst (h' tt) <> []) by (intros h' Hin; apply H; right; exact Hin).
+  pose proof (union_all_full_nonempty hs Hrest) as Hne.
+  specialize (IH Hrest).
+  destruct (h tt) as [s t] eqn:Hh.
+  destruct (union_all_full hs) as [s' t'] eqn:Hu. destruct (is_just_true s) eqn:Hj.
+  - apply is_just_true_eq in Hj. subst s. simpl in *.
+    intro x. rewrite In_lift2. split.
+    + intros [Hx|[]]. subst x. destruct s' as [|b s']; [exfalso; apply Hne; reflexivity|].
+      exists AT, b. simpl; auto.
+    + intros [a [b [[Ha|[]] [Hb Hx]]]]. subst a. simpl in Hx. exact Hx.
+  - destruct (union_all hs) as [s'' t''] eqn:Hu'. simpl in *.
+    apply lift2_seteq; [apply seteq_refl | exact IH].
+Qed.
+
+(* ================================================================== *)
+(* D. the rewrite evaluator of one ResolveCheck call, named             *)
+(* ================================================================== *)
+
+Lemma fst_let_pair : forall (A B C : Type) (x : A * B) (g : B -> C),
+  fst (let '(s, t) := x in (s, g t)) = fst x.
+Proof. intros A B C [s t] g; reflexivity. Qed.
+
+Section Algo.
+  Variable m : model.
+  Variable conds : list cid.
+  Variable store : list tuple.
+  Variable subj : subject.
+  Variable pathx : list (tid * rid).
+  Variable maxdepth : nat.
+
+  Definition userset_handler (rd : reldef) (o : obj) (r : rid)
+             (dispatch : obj -> rid -> unit -> res) : unit -> res :=
+    fun _ =>
+      let rs := rd_restr rd in
+      let ts := filter (fun t => valid m conds t && in_userset_restr rs (t_sub t)) (raw_of store o r) in
+      match passing ts with
+      | [] => if has_err ts then ([AEc], notrig) else ([AFn], notrig)
+      | ps =>
+          let '(s, t) := union_all (flat_map (fun t => match t_sub t with
+                                                       | SSet o' r' => [dispatch o' r']
+                                                       | _ => [] end) ps) in
+          (s, tor t {| tr_excl_sub_cycle := false; tr_swallow := has_err ts |})
+      end.
+
+  Definition this_handlers (rd : reldef) (o : obj) (r : rid)
+             (dispatch : obj -> rid -> unit -> res) : list (unit -> res) :=
+    let rs := rd_restr rd in
+    (if directly_related subj rs then [fun _ => direct_user_tuple m conds store subj o r] else []) ++
+    (if publicly_assignable subj rs then [fun _ => public_assignable m conds store subj o r] else []) ++
+    (if has_userset_restr rs then [userset_handler rd o r dispatch] else []).
+
+  Definition ttu_eval (o : obj) (ts c : rid) (dispatch : obj -> rid -> unit -> res) : res :=
+    let tl := filter (valid m conds) (raw_of store o ts) in
+    match passing tl with
+    | [] => if has_err tl then ([AEc], notrig) else ([AFn], notrig)
+    | ps =>
+        let '(s, t) := union_all (flat_map (fun t => match t_sub t with
+                                                     | SObj o' => if rel_defined m (otype o') c
+                                                                  then [dispatch o' c] else []
+                                                     | _ => [] end) ps) in
+        (s, tor t {| tr_excl_sub_cycle := false; tr_swallow := has_err tl |})
+    end.
+
+  Fixpoint eval_with (rd : reldef) (o : obj) (r : rid)
+           (dispatch : obj -> rid -> unit -> res) (computed : rid -> res) (rw : rewrite) : res :=
+    match rw with
+    | This => union_all (this_handlers rd o r dispatch)
+    | Computed r' => computed r'
+    | TTU ts c => ttu_eval o ts c dispatch
+    | Union l => union_all (map (fun x => fun _ : unit => eval_with rd o r dispatch computed x) l)
+    | Inter l => inter_all (map (fun x => fun _ : unit => eval_with rd o r dispatch computed x) l)
+    | Diff b s =>
+        let '(sb, tb) := eval_with rd o r dispatch computed b in
+        let '(ss, ts) := eval_with rd o r dispatch computed s in
+        (lift2 excl2 sb ss,
+         tor (tor tb ts) {| tr_excl_sub_cycle := omem AFc ss; tr_swallow := false |})
+    end.
+
+  Local Notation chk := (check m conds store subj pathx maxdepth).
+
+  (* one unfolding of `check`, with the anonymous local evaluator replaced by eval_with *)
+  Lemma check_unfold : forall f depth visited o r,
+    chk (S f) depth visited o r =
+    if Nat.eqb depth maxdepth then ([AEd], notrig)
+    else if existsb (atom_eqb (o, r)) visited then ([AFc], notrig)
+    else if subject_eqb subj (SSet o r) then ([AT], notrig)
+    else match get_relation m (otype o) r with
+         | None => ([AEo], notrig)
+         | Some rd =>
+             if negb (path_exists pathx (otype o) r) then ([AFn], notrig)
+             else eval_with rd o r
+                    (fun o' r' _ => chk f (S depth) ((o, r) :: visited) o' r')
+                    (fun r' => chk f depth ((o, r) :: visited) o r')
+                    (rd_rw rd)
+         end.
+  Proof.
+    intros f depth visited o r. cbn [check].
+    destruct (Nat.eqb depth maxdepth); [reflexivity|].
+    destruct (existsb (atom_eqb (o, r)) visited); [reflexivity|].
+    destruct (subject_eqb subj (SSet o r)); [reflexivity|].
+    destruct (get_relation m (otype o) r) as [rd|]; [|reflexivity].
+    destruct (negb (path_exists pathx (otype o) r)); [reflexivity|].
+    generalize (rd_rw rd). intro rw.
+    match goal with |- ?F rw = _ => set (ev := F) end.
+    induction rw as [|r'|ts c|l IH|l IH|b s IHb IHs] using rewrite_ind'.
+    - reflexivity.
+    - reflexivity.
+    - reflexivity.
+    - change (ev (Union l)) with (union_all (map (fun x => fun _ : unit => ev x) l)).
+      cbn [eval_with]. f_equal.
+      induction IH as [|x l Hx Hl IHl]; [reflexivity|].
+      cbn [map]. rewrite Hx, IHl. reflexivity.
+    - change (ev (Inter l)) with (inter_all (map (fun x => fun _ : unit => ev x) l)).
+      cbn [eval_with]. f_equal.
+      induction IH as [|x l Hx Hl IHl]; [reflexivity|].
+      cbn [map]. rewrite Hx, IHl. reflexivity.
+    - change (ev (Diff b s)) with
+        (let '(sb, tb) := ev b in
+         let '(ss, ts) := ev s in
+         (lift2 excl2 sb ss,
+          tor (tor tb ts) {| tr_excl_sub_cycle := omem AFc ss; tr_swallow := false |})).
+      cbn [eval_with]. rewrite IHb, IHs. reflexivity.
+  Qed.
+
+  (* ---- what a read hands to the evaluator ---- *)
+  Lemma raw_valid_tuples_of : forall t o r,
+    In t (raw_of store o r) -> valid m conds t = true -> In t (tuples_of m conds store o r).
+  Proof.
+    intros t o r H Hv. unfold raw_of in H. apply filter_In in H. destruct H as [H1 H2].
+    unfold tuples_of, vtuples. apply filter_In. split; [|exact H2].
+    apply filter_In. split; [exact H1 | exact Hv].
+  Qed.
+
+  Lemma In_passing : forall t ts, In t (passing ts) -> In t ts /\ t_ceval t = T.
+  Proof.
+    intros t ts H. unfold passing in H. apply filter_In in H. destruct H as [H1 H2].
+    split; [exact H1|]. destruct (t_ceval t); try discriminate H2. reflexivity.
+  Qed.
+
+  Lemma direct_user_tuple_AT : forall o r,
+    In AT (fst (direct_user_tuple m conds store subj o r)) ->
+    exists t, In t (tuples_of m conds store o r) /\ t_sub t = subj /\ t_ceval t = T.
+  Proof.
+    intros o r H. unfold direct_user_tuple in H.
+    destruct (find (fun t => subject_eqb (t_sub t) subj) (raw_of store o r)) as [t|] eqn:Hf.
+    - apply find_some in Hf. destruct Hf as [Hin Hs]. apply subject_eqb_eq in Hs.
+      destruct (valid m conds t) eqn:Hv; simpl in H.
+      + destruct (t_ceval t) eqn:Hc; simpl in H; destruct H as [H|[]]; try discriminate H.
+        exists t. split; [apply raw_valid_tuples_of; assumption | auto].
+      + destruct H as [H|[]]; discriminate H.
+    - simpl in H. destruct H as [H|[]]; discriminate H.
+  Qed.
+
+  Lemma public_assignable_AT : forall o r,
+    In AT (fst (public_assignable m conds store subj o r)) ->
+    exists t, In t (tuples_of m conds store o r) /\ t_sub t = SWild (subject_type subj) /\ t_ceval t = T.
+  Proof.
+    intros o r H. unfold public_assignable in H.
+    match type of H with context [passing ?X] => set (ts := X) in * end.
+    destruct (passing ts) as [|t ps] eqn:Hp.
+    - destruct (has_err ts); simpl in H; destruct H as [H|[]]; discriminate H.
+    - assert (Hin : In t (passing ts)) by (rewrite Hp; left; reflexivity).
+      apply In_passing in Hin. destruct Hin as [Hin Hc].
+      unfold ts in Hin. apply filter_In in Hin. destruct Hin as [Hraw Hv].
+      apply andb_true_iff in Hv. destruct Hv as [Hv Hs]. apply subject_eqb_eq in Hs.
+      exists t. split; [apply raw_valid_tuples_of; assumption | auto].
+  Qed.
+End Algo.
+
+(* ================================================================== *)
+(* D'. soundness of `allowed` for the positive fragment                 *)
+(* ================================================================== *)
+(* "Every `allowed` the algorithm can return is forced in every pre-fixpoint of the reference
+   semantics' step operator": for a model without difference, AT in the outcome set of check
+   (for ANY fuel, depth, visited path, PathExists oracle and depth limit, with conditional tuples
+   whose condition is true / false / not evaluable) implies that object#relation has value T in
+   every valuation v with eval_atom v a <= v a for all a.  The least fixpoint is such a
+   valuation, hence the corollary about holds3 below. *)
+
+Section Sound.
+  Variable m : model.
+  Variable conds : list cid.
+  Variable store : list tuple.
+  Variable subj : subject.
+  Variable pathx : list (tid * rid).
+  Variable maxdepth : nat.
+  Variable v : valuation.
+
+  Hypothesis Hpos : positive_model m = true.
+  Hypothesis Hpre : forall a, le3 (eval_atom m conds store subj v a) (vget v a) = true.
+
+  Local Notation chk := (check m conds store subj pathx maxdepth).
+  Local Notation av := (atomval subj v).
+
+  Lemma direct1_T_subject : forall t, t_sub t = subj -> t_ceval t = T -> direct1 subj v t = T.
+  Proof.
+    intros t Hs Hc. unfold direct1. rewrite Hs, subject_eqb_refl. exact Hc.
+  Qed.
+
+  Lemma direct1_T_wild : forall t,
+    (forall o r, subj <> SSet o r) ->
+    t_sub t = SWild (subject_type subj) -> t_ceval t = T -> direct1 subj v t = T.
+  Proof.
+    intros t Hns Hs Hc. unfold direct1. rewrite Hs.
+    destruct subj as [so|st|so sr]; simpl.
+    - rewrite N.eqb_refl. exact Hc.
+    - rewrite N.eqb_refl. exact Hc.
+    - exfalso. apply (Hns so sr). reflexivity.
+  Qed.
+
+  Lemma direct1_T_userset : forall t o' r',
+    t_sub t = SSet o' r' -> t_ceval t = T -> av o' r' = T -> direct1 subj v t = T.
+  Proof.
+    intros t o' r' Hs Hc Ha. unfold direct1. rewrite Hs.
+    destruct (subject_eqb (SSet o' r') subj); [exact Hc|]. rewrite Hc, Ha. reflexivity.
+  Qed.
+
+  Lemma or3_list_map_T : forall (f : tuple -> b3) l t, In t l -> f t = T -> or3_list (map f l) = T.
+  Proof. intros f l t Hin Hf. apply or3_list_T_iff. apply in_map_iff. exists t; auto. Qed.
+
+  Section OneCall.
+    Variable rd : reldef.
+    Variable o : obj.
+    Variable r : rid.
+    Variable dispatch : obj -> rid -> unit -> res.
+    Variable computed : rid -> res.
+    Hypothesis Hdisp : forall o' r', In AT (fst (dispatch o' r' tt)) -> av o' r' = T.
+    Hypothesis Hcomp : forall r', In AT (fst (computed r')) -> av o r' = T.
+
+    Lemma this_sound :
+      In AT (fst (union_all (this_handlers m conds store subj rd o r dispatch))) ->
+      or3_list (map (direct1 subj v) (tuples_of m conds store o r)) = T.
+    Proof.
+      intro H. apply union_all_AT in H. destruct H as [h [Hin Hat]].
+      unfold this_handlers in Hin. apply in_app_iff in Hin. destruct Hin as [Hin|Hin].
+      { destruct (directly_related subj (rd_restr rd)); [|destruct Hin].
+        destruct Hin as [Hin|[]]. subst h.
+        apply direct_user_tuple_AT in Hat. destruct Hat as [t [Ht [Hs Hc]]].
+        eapply or3_list_map_T; [exact Ht | apply direct1_T_subject; assumption]. }
+      apply in_app_iff in Hin. destruct Hin as [Hin|Hin].
+      { destruct (publicly_assignable subj (rd_restr rd)) eqn:Hpa; [|destruct Hin].
+        destruct Hin as [Hin|[]]. subst h.
+        apply public_assignable_AT in Hat. destruct Hat as [t [Ht [Hs Hc]]].
+        eapply or3_list_map_T; [exact Ht|]. apply direct1_T_wild; try assumption.
+        intros so sr He. unfold publicly_assignable in Hpa. rewrite He in Hpa. discriminate Hpa. }
+      destruct (has_userset_restr (rd_restr rd)); [|destruct Hin].
+      destruct Hin as [Hin|[]]. subst h. unfold userset_handler in Hat.
+      match type of Hat with context [passing ?X] => set (ts := X) in * end.
+      destruct (passing ts) as [|t0 ps] eqn:Hp.
+      { destruct (has_err ts); simpl in Hat; destruct Hat as [Hat|[]]; discriminate Hat. }
+      rewrite fst_let_pair in Hat. apply union_all_AT in Hat. destruct Hat as [h [Hin Hat]].
+      apply in_flat_map in Hin. destruct Hin as [t [Htp Hh]].
+      rewrite <- Hp in Htp. apply In_passing in Htp. destruct Htp as [Hts Hc].
+      unfold ts in Hts. apply filter_In in Hts. destruct Hts as [Hraw Hv].
+      apply andb_true_iff in Hv. destruct Hv as [Hv _].
+      remember (t_sub t) as st eqn:Hs. symmetry in Hs.
+      destruct st as [x|x|o' r']; try (destruct Hh; fail).
+      destruct Hh as [Hh|[]]. subst h.
+      eapply or3_list_map_T; [apply raw_valid_tuples_of; eassumption|].
+      eapply direct1_T_userset; [exact Hs | exact Hc | apply Hdisp; exact Hat].
+    Qed.
+
+    Lemma ttu_sound : forall ts c,
+      In AT (fst (ttu_eval m conds store o ts c dispatch)) ->
+      or3_list (map (ttu1 m subj v c) (tuples_of m conds store o ts)) = T.
+    Proof.
+      intros ts c Hat. unfold ttu_eval in Hat.
+      match type of Hat with context [passing ?X] => set (tl := X) in * end.
+      destruct (passing tl) as [|t0 ps] eqn:Hp.
+      { destruct (has_err tl); simpl in Hat; destruct Hat as [Hat|[]]; discriminate Hat. }
+      rewrite fst_let_pair in Hat. apply union_all_AT in Hat. destruct Hat as [h [Hin Hat]].
+      apply in_flat_map in Hin. destruct Hin as [t [Htp Hh]].
+      rewrite <- Hp in Htp. apply In_passing in Htp. destruct Htp as [Hts Hc].
+      unfold tl in Hts. apply filter_In in Hts. destruct Hts as [Hraw Hv].
+      remember (t_sub t) as st eqn:Hs. symmetry in Hs.
+      destruct st as [o'|x|x r']; try (destruct Hh; fail).
+      destruct (rel_defined m (otype o') c) eqn:Hd; [|destruct Hh].
+      destruct Hh as [Hh|[]]. subst h.
+      eapply or3_list_map_T; [apply raw_valid_tuples_of; eassumption|].
+      unfold ttu1. rewrite Hs, Hd, Hc, (Hdisp o' c Hat). reflexivity.
+    Qed.
+
+    Lemma eval_with_sound : forall rw,
+      positive_rw rw = true ->
+      In AT (fst (eval_with m conds store subj rd o r dispatch computed rw)) ->
+      eval_rw m conds store subj v o r rw = T.
+    Proof.
+      intro rw. induction rw as [|r'|ts c|l IH|l IH|b s IHb IHs] using rewrite_ind'; intros Hp Hat.
+      - apply this_sound; exact Hat.
+      - simpl. apply Hcomp. exact Hat.
+      - apply ttu_sound; exact Hat.
+      - rewrite eval_rw_Union. rewrite positive_Union, forallb_forall in Hp.
+        cbn [eval_with] in Hat. apply union_all_AT in Hat. destruct Hat as [h [Hin Hat]].
+        apply in_map_iff in Hin. destruct Hin as [x [Hh Hx]]. subst h.
+        rewrite Forall_forall in IH.
+        apply or3_list_T_iff. apply in_map_iff. exists x. split; [|exact Hx].
+        apply IH; [exact Hx | apply Hp; exact Hx | exact Hat].
+      - rewrite eval_rw_Inter. rewrite positive_Inter, forallb_forall in Hp.
+        cbn [eval_with] in Hat. rewrite Forall_forall in IH.
+        apply and3_list_T_iff. intros y Hy. apply in_map_iff in Hy. destruct Hy as [x [Hy Hx]]. subst y.
+        apply IH; [exact Hx | apply Hp; exact Hx |].
+        apply (inter_all_AT _ Hat (fun _ : unit => eval_with m conds store subj rd o r dispatch computed x)).
+        apply in_map_iff. exists x. auto.
+      - discriminate Hp.
+    Qed.
+  End OneCall.
+
+  Theorem check_sound_positive : forall fuel depth visited o r,
+    In AT (fst (chk fuel depth visited o r)) -> av o r = T.
+  Proof.
+    induction fuel as [|f IH]; intros depth visited o r H.
+    - simpl in H. destruct H as [H|[]]; discriminate H.
+    - rewrite check_unfold in H.
+      destruct (Nat.eqb depth maxdepth); [simpl in H; destruct H as [H|[]]; discriminate H|].
+      destruct (existsb (atom_eqb (o, r)) visited); [simpl in H; destruct H as [H|[]]; discriminate H|].
+      unfold atomval. destruct (subject_eqb subj (SSet o r)) eqn:Hs; [reflexivity|].
+      destruct (get_relation m (otype o) r) as [rd|] eqn:Hr;
+        [|simpl in H; destruct H as [H|[]]; discriminate H].
+      destruct (negb (path_exists pathx (otype o) r)); [simpl in H; destruct H as [H|[]]; discriminate H|].
+      apply le3_T_l. rewrite <- (Hpre (o, r)). f_equal.
+      unfold eval_atom. simpl. rewrite Hr. symmetry.
+      eapply eval_with_sound; [| |eapply positive_model_rel; eassumption | exact H].
+      + intros o' r' Hat. eapply IH; exact Hat.
+      + intros r' Hat. eapply IH; exact Hat.
+  Qed.
+End Sound.
+
+(* against the reference semantics itself: positive model, adequate universe *)
+Theorem check_sound_positive_holds3 :
+  forall m conds store subj pathx maxdepth atoms fuel o r,
+    positive_model m = true ->
+    no_empty_inter_model m = true ->
+    universe_ok m conds store subj atoms = true ->
+    In AT (fst (check_top m conds store subj pathx maxdepth fuel o r)) ->
+    holds3 m conds store subj atoms o r = T.
+Proof.
+  intros m conds store subj pathx maxdepth atoms fuel o r Hpos Hne Hu H.
+  unfold holds3, check_top in *.
+  eapply check_sound_positive; [exact Hpos | | exact H].
+  intro a. rewrite (positive_lfp_fixpoint_all m conds store subj atoms Hu Hne Hpos a). apply le3_refl.
+Qed.
+
+(* ================================================================== *)
+(* F. the model's fuel is sufficient                                   *)
+(* ================================================================== *)
+(* Every nested call either dispatches (depth + 1, bounded by the depth limit) or follows a
+   computed userset on the same object (a new defined relation of that object joins the visited
+   path).  With R = the largest number of relations of a type, fuel >= (maxdepth+1) * (R+2)
+   is enough: AFuel is never an outcome. *)
+
+Lemma union2_mem : forall a b x, In x (union2 a b) -> x = a \/ x = b.
+Proof. intros a b x H; destruct a, b; simpl in H; in_cases H; subst x; auto. Qed.
+Lemma inter2_mem : forall a b x, In x (inter2 a b) -> x = a \/ x = b.
+Proof. intros a b x H; destruct a, b; simpl in H; in_cases H; subst x; auto. Qed.
+Lemma excl2_mem : forall a b x, In x (excl2 a b) -> x = a \/ x = b \/ x = AFn.
+Proof. intros a b x H; destruct a, b; simpl in H; in_cases H; subst x; auto. Qed.
+
+Lemma union_all_mem : forall hs x,
+  In x (fst (union_all hs)) -> x = AFn \/ exists h, In h hs /\ In x (fst (h tt)).
+Proof.
+  induction hs as [|h hs IH]; simpl; intros x H.
+  - destruct H as [H|[]]. left; symmetry; exact H.
+  - destruct (h tt) as [s t] eqn:Hh. destruct (is_just_true s) eqn:Hj.
+    + apply is_just_true_eq in Hj. subst s. right. exists h. rewrite Hh. auto.
+    + destruct (union_all hs) as [s' t'] eqn:Hu. simpl in H, IH.
+      apply In_lift2 in H. destruct H as [a [b [Ha [Hb Hx]]]].
+      apply union2_mem in Hx. destruct Hx as [Hx|Hx]; subst x.
+      * right. exists h. rewrite Hh. auto.
+      * destruct (IH b Hb) as [He|[h' [Hin Hat]]]; [left; exact He | right; exists h'; auto].
+Qed.
+
+Lemma inter_all_mem : forall hs x,
+  In x (fst (inter_all hs)) -> x = AT \/ exists h, In h hs /\ In x (fst (h tt)).
+Proof.
+  induction hs as [|h hs IH]; simpl; intros x H.
+  - destruct H as [H|[]]. left; symmetry; exact H.
+  - destruct (h tt) as [s t] eqn:Hh. destruct (inter_all hs) as [s' t'] eqn:Hu. simpl in H, IH.
+    apply In_lift2 in H. destruct H as [a [b [Ha [Hb Hx]]]].
+    apply inter2_mem in Hx. destruct Hx as [Hx|Hx]; subst x.
+    + right. exists h. rewrite Hh. auto.
+    + destruct (IH b Hb) as [He|[h' [Hin Hat]]]; [left; exact He | right; exists h'; auto].
+Qed.
+
+Lemma filter_length_le_gen : forall (A : Type) (p : A -> bool) l, (length (filter p l) <= length l)%nat.
+Proof. intros A p l; induction l as [|x l IH]; simpl; [lia | destruct (p x); simpl; lia]. Qed.
+
+Lemma filter_length_mono : forall (A : Type) (p q : A -> bool) l,
+  (forall x, p x = true -> q x = true) -> (length (filter p l) <= length (filter q l))%nat.
+Proof.
+  intros A p q l H; induction l as [|x l IH]; simpl; [lia|].
+  destruct (p x) eqn:Hp; [rewrite (H x Hp); simpl; lia | destruct (q x); simpl; lia].
+Qed.
+
+Lemma filter_length_lt : forall (A : Type) (p q : A -> bool) l a,
+  (forall x, p x = true -> q x = true) -> In a l -> p a = false -> q a = true ->
+  (length (filter p l) < length (filter q l))%nat.
+Proof.
+  intros A p q l a H; induction l as [|x l IH]; simpl; intros Hin Hp Hq; [destruct Hin|].
+  destruct Hin as [Hin|Hin].
+  - subst x. rewrite Hp, Hq. simpl. pose proof (filter_length_mono A p q l H). lia.
+  - specialize (IH Hin Hp Hq). destruct (p x) eqn:Hpx; [rewrite (H x Hpx); simpl; lia | destruct (q x); simpl; lia].
+Qed.
+
+Section Fuel.
+  Variable m : model.
+  Variable conds : list cid.
+  Variable store : list tuple.
+  Variable subj : subject.
+  Variable pathx : list (tid * rid).
+  Variable maxdepth : nat.
+
+  Local Notation chk := (check m conds store subj pathx maxdepth).
+
+  Definition max_rels : nat := fold_right Nat.max O (map (fun d => length (td_rels d)) m).
+
+  (* defined relations of o's type that are already on the visited path for o *)
+  Definition cnt (visited : list atom) (o : obj) : nat :=
+    length (filter (fun r' => existsb (atom_eqb (o, r')) visited) (defined_rels m (otype o))).
+
+  Lemma defined_rels_length : forall t, (length (defined_rels m t) <= max_rels)%nat.
+  Proof.
+    intro t. unfold defined_rels, max_rels.
+    destruct (find_type m t) as [d|] eqn:Hd; [|simpl; lia].
+    apply find_type_In in Hd. destruct Hd as [Hin _]. rewrite map_length.
+    induction m as [|d' m' IH]; [destruct Hin|]. simpl. destruct Hin as [Hin|Hin].
+    - subst d'. lia.
+    - specialize (IH Hin). lia.
+  Qed.
+
+  Lemma cnt_le : forall visited o, (cnt visited o <= max_rels)%nat.
+  Proof.
+    intros visited o. unfold cnt.
+    eapply Nat.le_trans; [apply filter_length_le_gen | apply defined_rels_length].
+  Qed.
+
+  Lemma cnt_grow : forall visited o r,
+    rel_defined m (otype o) r = true ->
+    existsb (atom_eqb (o, r)) visited = false ->
+    (cnt visited o < cnt ((o, r) :: visited) o)%nat.
+  Proof.
+    intros visited o r Hd Hv. unfold cnt. apply filter_length_lt with (a := r).
+    - intros x Hx. simpl. rewrite Hx. apply orb_true_r.
+    - apply rel_defined_In; exact Hd.
+    - exact Hv.
+    - simpl. rewrite atom_eqb_refl. reflexivity.
+  Qed.
+
+  Definition mu (depth : nat) (visited : list atom) (o : obj) : nat :=
+    ((maxdepth - depth) * (max_rels + 2) + (max_rels - cnt visited o) + 1)%nat.
+
+  Lemma direct_user_tuple_no_fuel : forall o r,
+    ~ In AFuel (fst (direct_user_tuple m conds store subj o r)).
+  Proof.
+    intros o r H. unfold direct_user_tuple in H.
+    destruct (find (fun t => subject_eqb (t_sub t) subj) (raw_of store o r)) as [t|].
+    - destruct (negb (valid m conds t)); [|destruct (t_ceval t)];
+        simpl in H; destruct H as [H|[]]; discriminate H.
+    - simpl in H; destruct H as [H|[]]; discriminate H.
+  Qed.
+
+  Lemma public_assignable_no_fuel : forall o r,
+    ~ In AFuel (fst (public_assignable m conds store subj o r)).
+  Proof.
+    intros o r H. unfold public_assignable in H.
+    match type of H with context [passing ?X] => set (ts := X) in * end.
+    destruct (passing ts); [destruct (has_err ts)|]; simpl in H; destruct H as [H|[]]; discriminate H.
+  Qed.
+
+  Section OneCallFuel.
+    Variable rd : reldef.
+    Variable o : obj.
+    Variable r : rid.
+    Variable dispatch : obj -> rid -> unit -> res.
+    Variable computed : rid -> res.
+    Hypothesis Hdisp : forall o' r', ~ In AFuel (fst (dispatch o' r' tt)).
+    Hypothesis Hcomp : forall r', ~ In AFuel (fst (computed r')).
+
+    Lemma this_no_fuel :
+      ~ In AFuel (fst (union_all (this_handlers m conds store subj rd o r dispatch))).
+    Proof.
+      intro H. apply union_all_mem in H. destruct H as [H|[h [Hin Hat]]]; [discriminate H|].
+      unfold this_handlers in Hin. apply in_app_iff in Hin. destruct Hin as [Hin|Hin].
+      { destruct (directly_related subj (rd_restr rd)); [|destruct Hin].
+        destruct Hin as [Hin|[]]. subst h. exact (direct_user_tuple_no_fuel o r Hat). }
+      apply in_app_iff in Hin. destruct Hin as [Hin|Hin].
+      { destruct (publicly_assignable subj (rd_restr rd)); [|destruct Hin].
+        destruct Hin as [Hin|[]]. subst h. exact (public_assignable_no_fuel o r Hat). }
+      destruct (has_userset_restr (rd_restr rd)); [|destruct Hin].
+      destruct Hin as [Hin|[]]. subst h. unfold userset_handler in Hat.
+      match type of Hat with context [passing ?X] => set (ts := X) in * end.
+      destruct (passing ts) as [|t0 ps] eqn:Hp.
+      { destruct (has_err ts); simpl in Hat; destruct Hat as [Hat|[]]; discriminate Hat. }
+      rewrite fst_let_pair in Hat. apply union_all_mem in Hat.
+      destruct Hat as [Hat|[h [Hin Hat]]]; [discriminate Hat|].
+      apply in_flat_map in Hin. destruct Hin as [t [_ Hh]].
+      destruct (t_sub t) as [x|x|o' r']; try (destruct Hh; fail).
+      destruct Hh as [Hh|[]]. subst h. exact (Hdisp o' r' Hat).
+    Qed.
+
+    Lemma ttu_no_fuel : forall ts c,
+      ~ In AFuel (fst (ttu_eval m conds store o ts c dispatch)).
+    Proof.
+      intros ts c Hat. unfold ttu_eval in Hat.
+      match type of Hat with context [passing ?X] => set (tl := X) in * end.
+      destruct (passing tl) as [|t0 ps] eqn:Hp.
+      { destruct (has_err tl); simpl in Hat; destruct Hat as [Hat|[]]; discriminate Hat. }
+      rewrite fst_let_pair in Hat. apply union_all_mem in Hat.
+      destruct Hat as [Hat|[h [Hin Hat]]]; [discriminate Hat|].
+      apply in_flat_map in Hin. destruct Hin as [t [_ Hh]].
+      destruct (t_sub t) as [o'|x|x r']; try (destruct Hh; fail).
+      destruct (rel_defined m (otype o') c); [|destruct Hh].
+      destruct Hh as [Hh|[]]. subst h. exact (Hdisp o' c Hat).
+    Qed.
+
+    Lemma eval_with_no_fuel : forall rw,
+      ~ In AFuel (fst (eval_with m conds store subj rd o r dispatch computed rw)).
+    Proof.
+      intro rw. induction rw as [|r'|ts c|l IH|l IH|b s IHb IHs] using rewrite_ind'; intro Hat.
+      - exact (this_no_fuel Hat).
+      - exact (Hcomp r' Hat).
+      - exact (ttu_no_fuel ts c Hat).
+      - cbn [eval_with] in Hat. apply union_all_mem in Hat.
+        destruct Hat as [Hat|[h [Hin Hat]]]; [discriminate Hat|].
+        apply in_map_iff in Hin. destruct Hin as [x [Hh Hx]]. subst h.
+        rewrite Forall_forall in IH. exact (IH x Hx Hat).
+      - cbn [eval_with] in Hat. apply inter_all_mem in Hat.
+        destruct Hat as [Hat|[h [Hin Hat]]]; [discriminate Hat|].
+        apply in_map_iff in Hin. destruct Hin as [x [Hh Hx]]. subst h.
+        rewrite Forall_forall in IH. exact (IH x Hx Hat).
+      - cbn [eval_with] in Hat.
+        destruct (eval_with m conds store subj rd o r dispatch computed b) as [sb tb].
+        destruct (eval_with m conds store subj rd o r dispatch computed s) as [ss ts].
+        simpl in Hat, IHb, IHs. apply In_lift2 in Hat. destruct Hat as [a [b' [Ha [Hb Hx]]]].
+        apply excl2_mem in Hx. destruct Hx as [Hx|[Hx|Hx]]; try discriminate Hx; subst.
+        + exact (IHb Ha).
+        + exact (IHs Hb).
+    Qed.
+  End OneCallFuel.
+
+  Theorem check_no_fuel_gen : forall fuel depth visited o r,
+    (depth <= maxdepth)%nat -> (mu depth visited o <= fuel)%nat ->
+    ~ In AFuel (fst (chk fuel depth visited o r)).
+  Proof.
+    induction fuel as [|f IH]; intros depth visited o r Hd Hmu.
+    - exfalso. unfold mu in Hmu. nia.
+    - rewrite check_unfold.
+      destruct (Nat.eqb depth maxdepth) eqn:Hdm; [simpl; intros [H|[]]; discriminate H|].
+      apply Nat.eqb_neq in Hdm.
+      destruct (existsb (atom_eqb (o, r)) visited) eqn:Hvis; [simpl; intros [H|[]]; discriminate H|].
+      destruct (subject_eqb subj (SSet o r)); [simpl; intros [H|[]]; discriminate H|].
+      destruct (get_relation m (otype o) r) as [rd|] eqn:Hr; [|simpl; intros [H|[]]; discriminate H].
+      destruct (negb (path_exists pathx (otype o) r)); [simpl; intros [H|[]]; discriminate H|].
+      assert (Hdef : rel_defined m (otype o) r = true) by (unfold rel_defined; rewrite Hr; reflexivity).
+      pose proof (cnt_grow visited o r Hdef Hvis) as Hg.
+      pose proof (cnt_le ((o, r) :: visited) o) as Hle.
+      apply eval_with_no_fuel.
+      + intros o' r'. apply IH; [lia|].
+        pose proof (cnt_le ((o, r) :: visited) o') as Hle'.
+        unfold mu in *.
+        replace (maxdepth - depth)%nat with (S (maxdepth - S depth)) in Hmu by lia.
+        simpl in Hmu. lia.
+      + intros r'. apply IH; [exact Hd|]. unfold mu in *. lia.
+  Qed.
+
+  (* the top-level request *)
+  Theorem check_no_fuel : forall fuel o r,
+    ((maxdepth + 1) * (max_rels + 2) <= fuel)%nat ->
+    ~ In AFuel (fst (check_top m conds store subj pathx maxdepth fuel o r)).
+  Proof.
+    intros fuel o r Hf. unfold check_top. apply check_no_fuel_gen; [lia|].
+    unfold mu, cnt. simpl.
+    assert (H0 : length (filter (fun _ : rid => false) (defined_rels m (otype o))) = O).
+    { induction (defined_rels m (otype o)) as [|x l IHl]; simpl; [reflexivity | exact IHl]. }
+    rewrite H0. rewrite Nat.sub_0_r, Nat.sub_0_r. lia.
+  Qed.
+End Fuel.
+
+(* ================================================================== *)
+(* F'. Check always has an outcome                                     *)
+(* ================================================================== *)
+
+Lemma union_all_nonempty : forall hs,
+  (forall h, In h hs -> fst (h tt) <> []) -> fst (union_all hs) <> [].
+Proof.
+  intros hs H He. pose proof (union_all_early_exit hs H) as Hs.
+  pose proof (union_all_full_nonempty hs H) as Hn.
+  destruct (fst (union_all_full hs)) as [|x l] eqn:Hf; [apply Hn; reflexivity|].
+  rewrite He in Hs. destruct (Hs x) as [_ Hx]. destruct (Hx (or_introl eq_refl)).
+Qed.
+
+Lemma inter_all_nonempty : forall hs,
+  (forall h, In h hs -> fst (h tt) <> []) -> fst (inter_all hs) <> [].
+Proof.
+  induction hs as [|h hs IH]; simpl; intro H; [discriminate|].
+  destruct (h tt) as [s t] eqn:Hh. destruct (inter_all hs) as [s' t'] eqn:Hu. simpl.
+  apply lift2_nonempty; [exact inter2_nonempty | |].
+  - specialize (H h (or_introl eq_refl)). rewrite Hh in H. exact H.
+  - simpl in IH. apply IH. intros h' Hin; apply H; right; exact Hin.
+Qed.
+
+Section NonEmpty.
+  Variable m : model.
+  Variable conds : list cid.
+  Variable store : list tuple.
+  Variable subj : subject.
+  Variable pathx : list (tid * rid).
+  Variable maxdepth : nat.
+
+  Local Notation chk := (check m conds store subj pathx maxdepth).
+
+  Lemma direct_user_tuple_nonempty : forall o r,
+    fst (direct_user_tuple m conds store subj o r) <> [].
+  Proof.
+    intros o r. unfold direct_user_tuple.
+    destruct (find (fun t => subject_eqb (t_sub t) subj) (raw_of store o r)) as [t|]; [|discriminate].
+    destruct (negb (valid m conds t)); [discriminate|]. destruct (t_ceval t); discriminate.
+  Qed.
+
+  Lemma public_assignable_nonempty : forall o r,
+    fst (public_assignable m conds store subj o r) <> [].
+  Proof.
+    intros o r. unfold public_assignable.
+    match goal with |- context [passing ?X] => set (ts := X) end.
+    destruct (passing ts); [destruct (has_err ts)|]; discriminate.
+  Qed.
+
+  Section OneCallNE.
+    Variable rd : reldef.
+    Variable o : obj.
+    Variable r : rid.
+    Variable dispatch : obj -> rid -> unit -> res.
+    Variable computed : rid -> res.
+    Hypothesis Hdisp : forall o' r', fst (dispatch o' r' tt) <> [].
+    Hypothesis Hcomp : forall r', fst (computed r') <> [].
+
+    Lemma this_nonempty :
+      fst (union_all (this_handlers m conds store subj rd o r dispatch)) <> [].
+    Proof.
+      apply union_all_nonempty. intros h Hin.
+      unfold this_handlers in Hin. apply in_app_iff in Hin. destruct Hin as [Hin|Hin].
+      { destruct (directly_related subj (rd_restr rd)); [|destruct Hin].
+        destruct Hin as [Hin|[]]. subst h. apply direct_user_tuple_nonempty. }
+      apply in_app_iff in Hin. destruct Hin as [Hin|Hin].
+      { destruct (publicly_assignable subj (rd_restr rd)); [|destruct Hin].
+        destruct Hin as [Hin|[]]. subst h. apply public_assignable_nonempty. }
+      destruct (has_userset_restr (rd_restr rd)); [|destruct Hin].
+      destruct Hin as [Hin|[]]. subst h. unfold userset_handler.
+      match goal with |- context [passing ?X] => set (ts := X) end.
+      destruct (passing ts) as [|t0 ps]; [destruct (has_err ts); discriminate|].
+      rewrite fst_let_pair. apply union_all_nonempty. intros h Hin.
+      apply in_flat_map in Hin. destruct Hin as [t [_ Hh]].
+      destruct (t_sub t) as [x|x|o' r']; try (destruct Hh; fail).
+      destruct Hh as [Hh|[]]. subst h. apply Hdisp.
+    Qed.
+
+    Lemma ttu_nonempty : forall ts c, fst (ttu_eval m conds store o ts c dispatch) <> [].
+    Proof.
+      intros ts c. unfold ttu_eval.
+      match goal with |- context [passing ?X] => set (tl := X) end.
+      destruct (passing tl) as [|t0 ps]; [destruct (has_err tl); discriminate|].
+      rewrite fst_let_pair. apply union_all_nonempty. intros h Hin.
+      apply in_flat_map in Hin. destruct Hin as [t [_ Hh]].
+      destruct (t_sub t) as [o'|x|x r']; try (destruct Hh; fail).
+      destruct (rel_defined m (otype o') c); [|destruct Hh].
+      destruct Hh as [Hh|[]]. subst h. apply Hdisp.
+    Qed.
+
+    Lemma eval_with_nonempty : forall rw,
+      fst (eval_with m conds store subj rd o r dispatch computed rw) <> [].
+    Proof.
+      intro rw. induction rw as [|r'|ts c|l IH|l IH|b s IHb IHs] using rewrite_ind'.
+      - exact this_nonempty.
+      - exact (Hcomp r').
+      - exact (ttu_nonempty ts c).
+      - cbn [eval_with]. apply union_all_nonempty. intros h Hin.
+        apply in_map_iff in Hin. destruct Hin as [x [Hh Hx]]. subst h.
+        rewrite Forall_forall in IH. exact (IH x Hx).
+      - cbn [eval_with]. apply inter_all_nonempty. intros h Hin.
+        apply in_map_iff in Hin. destruct Hin as [x [Hh Hx]]. subst h.
+        rewrite Forall_forall in IH. exact (IH x Hx).
+      - cbn [eval_with].
+        destruct (eval_with m conds store subj rd o r dispatch computed b) as [sb tb].
+        destruct (eval_with m conds store subj rd o r dispatch computed s) as [ss ts].
+        simpl in *. apply lift2_nonempty; [exact excl2_nonempty | exact IHb | exact IHs].
+    Qed.
+  End OneCallNE.
+
+  Theorem check_nonempty : forall fuel depth visited o r,
+    fst (chk fuel depth visited o r) <> [].
+  Proof.
+    induction fuel as [|f IH]; intros depth visited o r; [discriminate|].
+    rewrite check_unfold.
+    destruct (Nat.eqb depth maxdepth); [discriminate|].
+    destruct (existsb (atom_eqb (o, r)) visited); [discriminate|].
+    destruct (subject_eqb subj (SSet o r)); [discriminate|].
+    destruct (get_relation m (otype o) r) as [rd|]; [|discriminate].
+    destruct (negb (path_exists pathx (otype o) r)); [discriminate|].
+    apply eval_with_nonempty; intros; apply IH.
+  Qed.
+End NonEmpty.
+
+(* ================================================================== *)
+(* E. the full statement, and the two reproduced defects                *)
+(* ================================================================== *)
+
+(* PathExists is given to the model as a list; "no pruning" = every defined relation is listed *)
+Definition pathx_full (m : model) (pathx : list (tid * rid)) : bool :=
+  forallb (fun p : tid * reldef => path_exists pathx (fst p) (rd_rel (snd p))) (all_rels m).
+
+(* an outcome of the algorithm agrees with the reference value: a decision must be the value;
+   errors (condition / depth / undefined relation / model fuel) are not decisions *)
+Definition decision_agrees (x : aout) (s : b3) : Prop :=
+  match x with
+  | AT => s = T
+  | AFn | AFc => s = F
+  | AEc | AEd | AEo | AFuel => True
+  end.
+
+(* C01, full strength, as it would hold of a defect-free engine: for every stratified model whose
+   reference semantics converged, every store, subject, adequate universe, unpruned type graph,
+   depth limit and fuel, EVERY possible outcome of Check that is a decision is the least-fixpoint
+   value.  The faithful model refutes it (C01_full_refuted below): both witnesses raise their
+   trigger flag.
+
+   check_exact (NOT proved; the target for the fragment "no trigger raised"):
+     stratified m, converged, universe_ok, pathx_full, snd (check_top ..) = notrig,
+     AEd, AFuel not in fst (check_top ..)  ==>
+       fst (check_top ..) = [AT]            <-> holds3 = T
+       fst (check_top ..) subset {AFn, AFc} <-> holds3 = F
+       AEc in fst (check_top ..)            ->  some valid tuple has t_ceval = E.
+   Proved of it:  the "->" of the first line for models without difference
+   (check_sound_positive_holds3; no hypothesis on triggers, pruning, depth or fuel is needed for
+   that direction), the reducer layer of all lines (reducers_kleene_union,
+   reducers_kleene_inter, excl2_kleene_partial, and in the information order -- an error in
+   place of a child's true value never corrupts a decision -- lift2_union2_refines,
+   lift2_inter2_refines, lift2_excl2_refines_partial), check_no_fuel (AFuel is excluded by
+   fuel >= (maxdepth+1)*(max_rels+2)) and check_nonempty.
+   Not proved: completeness of the path-based cycle cut (a denial / cycle outcome implies value F
+   -- needs the minimal-derivation argument), hence also soundness of `allowed` under a
+   difference (which needs the denial direction for the subtract branch), and the
+   characterisation of condition errors. *)
+Definition C01_full_statement : Prop :=
+  forall m conds store subj pathx atoms maxdepth fuel o r x,
+    stratified m = true ->
+    converged m conds store subj atoms = true ->
+    universe_ok m conds store subj atoms = true ->
+    pathx_full m pathx = true ->
+    forallb (valid_for_read m conds) store = true ->
+    In x (fst (check_top m conds store subj pathx maxdepth fuel o r)) ->
+    decision_agrees x (holds3 m conds store subj atoms o r).
+
+Definition mk_obj (t i : N) : obj := {| otype := t; oid := i |}.
+Definition mk_restr (t : N) (k : rkind) (c : N) : restriction := {| r_type := t; r_kind := k; r_cond := c |}.
+Definition mk_rel (r : N) (rw : rewrite) (l : list restriction) : reldef := {| rd_rel := r; rd_rw := rw; rd_restr := l |}.
+Definition mk_tuple (o : obj) (r : N) (s : subject) (c : N) (e : b3) : tuple :=
+  {| t_obj := o; t_rel := r; t_sub := s; t_cond := c; t_ceval := e |}.
+
+(* F1 (checks/C01.findings.json, excl_sub_cycle).
+   types user=1 team=2 group=3 doc=4; relations member=1 owner=2 blocked=3 viewer=4.
+     team.member: [user, group#member]   group.member: [user, team#member]
+     doc.owner: [user]   doc.blocked: [group#member, team#member]
+     doc.viewer: owner but not blocked
+   tuples doc:1#owner@user:1, doc:1#blocked@group:1#member,
+          group:1#member@team:2#member, team:2#member@group:1#member *)
+Definition f1_model : model :=
+  [ {| td_type := 1; td_rels := [] |};
+    {| td_type := 2; td_rels := [mk_rel 1 This [mk_restr 1 RObj 0; mk_restr 3 (RSet 1) 0]] |};
+    {| td_type := 3; td_rels := [mk_rel 1 This [mk_restr 1 RObj 0; mk_restr 2 (RSet 1) 0]] |};
+    {| td_type := 4; td_rels := [mk_rel 2 This [mk_restr 1 RObj 0];
+                                 mk_rel 3 This [mk_restr 3 (RSet 1) 0; mk_restr 2 (RSet 1) 0];
+                                 mk_rel 4 (Diff (Computed 2) (Computed 3)) []] |} ].
+Definition f1_store : list tuple :=
+  [ mk_tuple (mk_obj 4 1) 2 (SObj (mk_obj 1 1)) 0 T;
+    mk_tuple (mk_obj 4 1) 3 (SSet (mk_obj 3 1) 1) 0 T;
+    mk_tuple (mk_obj 3 1) 1 (SSet (mk_obj 2 2) 1) 0 T;
+    mk_tuple (mk_obj 2 2) 1 (SSet (mk_obj 3 1) 1) 0 T ].
+Definition f1_subj : subject := SObj (mk_obj 1 1).
+Definition f1_pathx : list (tid * rid) := [(4, 4); (4, 2); (4, 3); (3, 1); (2, 1)].
+Definition f1_atoms : list atom :=
+  [(mk_obj 4 1, 2); (mk_obj 4 1, 3); (mk_obj 4 1, 4); (mk_obj 3 1, 1); (mk_obj 2 2, 1)].
+
+Theorem C01_refuted_excl_sub_cycle :
+  exists m conds store subj pathx atoms o r,
+    stratified m = true /\
+    converged m conds store subj atoms = true /\
+    universe_ok m conds store subj atoms = true /\
+    pathx_full m pathx = true /\
+    forallb (valid_for_read m conds) store = true /\
+    check_top m conds store subj pathx 25 30 o r =
+      ([AFc], {| tr_excl_sub_cycle := true; tr_swallow := false |}) /\
+    holds3 m conds store subj atoms o r = T.
+Proof.
+  exists f1_model, [], f1_store, f1_subj, f1_pathx, f1_atoms, (mk_obj 4 1), 4.
+  vm_compute. repeat split; reflexivity.
+Qed.
+
+(* F2 (cond_err_swallowed).
+   types user=1 group=2 doc=3; relations member=1 viewer=2 blocked=3 allowed=4; condition c1=1.
+     group.member: [user]   doc.viewer: [user]   doc.blocked: [group#member with c1]
+     doc.allowed: viewer but not blocked
+   tuples doc:1#blocked@group:1#member (c1 true), doc:1#blocked@group:2#member (c1 cannot be
+          evaluated: parameter missing), group:2#member@user:1, doc:1#viewer@user:1 *)
+Definition f2_model : model :=
+  [ {| td_type := 1; td_rels := [] |};
+    {| td_type := 2; td_rels := [mk_rel 1 This [mk_restr 1 RObj 0]] |};
+    {| td_type := 3; td_rels := [mk_rel 2 This [mk_restr 1 RObj 0];
+                                 mk_rel 3 This [mk_restr 2 (RSet 1) 1];
+                                 mk_rel 4 (Diff (Computed 2) (Computed 3)) []] |} ].
+Definition f2_store : list tuple :=
+  [ mk_tuple (mk_obj 3 1) 3 (SSet (mk_obj 2 1) 1) 1 T;
+    mk_tuple (mk_obj 3 1) 3 (SSet (mk_obj 2 2) 1) 1 E;
+    mk_tuple (mk_obj 2 2) 1 (SObj (mk_obj 1 1)) 0 T;
+    mk_tuple (mk_obj 3 1) 2 (SObj (mk_obj 1 1)) 0 T ].
+Definition f2_subj : subject := SObj (mk_obj 1 1).
+Definition f2_pathx : list (tid * rid) := [(3, 4); (3, 2); (3, 3); (2, 1)].
+Definition f2_atoms : list atom :=
+  [(mk_obj 3 1, 2); (mk_obj 3 1, 3); (mk_obj 3 1, 4); (mk_obj 2 1, 1); (mk_obj 2 2, 1)].
+
+Theorem C01_refuted_cond_err_swallowed :
+  exists m conds store subj pathx atoms o r,
+    stratified m = true /\
+    converged m conds store subj atoms = true /\
+    universe_ok m conds store subj atoms = true /\
+    pathx_full m pathx = true /\
+    forallb (valid_for_read m conds) store = true /\
+    check_top m conds store subj pathx 25 30 o r =
+      ([AT], {| tr_excl_sub_cycle := false; tr_swallow := true |}) /\
+    holds3 m conds store subj atoms o r = E.
+Proof.
+  exists f2_model, [1], f2_store, f2_subj, f2_pathx, f2_atoms, (mk_obj 3 1), 4.
+  vm_compute. repeat split; reflexivity.
+Qed.
+
+Theorem C01_full_refuted : ~ C01_full_statement.
+Proof.
+  intro H.
+  destruct C01_refuted_excl_sub_cycle as [m [conds [store [subj [pathx [atoms [o [r
+    [H1 [H2 [H3 [H4 [H5 [H6 H7]]]]]]]]]]]]]].
+  specialize (H m conds store subj pathx atoms 25%nat 30%nat o r AFc H1 H2 H3 H4 H5).
+  rewrite H6 in H. simpl in H. specialize (H (or_introl eq_refl)). rewrite H7 in H. discriminate H.
+Qed.
+
+(* the same statement restricted to `allowed` outcomes of models without difference is a theorem *)
+Theorem C01_allowed_positive_partial :
+  forall m conds store subj pathx atoms maxdepth fuel o r,
+    positive_model m = true ->
+    no_empty_inter_model m = true ->
+    universe_ok m conds store subj atoms = true ->
+    In AT (fst (check_top m conds store subj pathx maxdepth fuel o r)) ->
+    decision_agrees AT (holds3 m conds store subj atoms o r) /\
+    stratified m = true /\ converged m conds store subj atoms = true.
+Proof.
+  intros m conds store subj pathx atoms maxdepth fuel o r Hpos Hne Hu H. split; [|split].
+  - simpl. eapply check_sound_positive_holds3; eassumption.
+  - apply positive_stratified; exact Hpos.
+  - apply converged_positive; exact Hpos.
+Qed.
+
+(* ================================================================== *)
+(* G. data for the non-vacuity examples in Props/C01.v                  *)
+(* ================================================================== *)
+(* A model without difference that uses every other rewrite, a wildcard, a condition with all
+   three outcomes, a tuple cycle and a tuple that is invalid for the model.
+   types user=1 group=2 folder=3 doc=4;
+   relations member=1 viewer=2 parent=3 editor=4 can_view=5 can_edit=6; condition c1=1.
+     group.member: [user, group#member]      folder.viewer: [user, user:*]
+     doc.parent: [folder]   doc.viewer: [user, group#member with c1]   doc.editor: [user]
+     doc.can_view: viewer or editor or viewer from parent
+     doc.can_edit: editor and can_view *)
+Definition ex_model : model :=
+  [ {| td_type := 1; td_rels := [] |};
+    {| td_type := 2; td_rels := [mk_rel 1 This [mk_restr 1 RObj 0; mk_restr 2 (RSet 1) 0]] |};
+    {| td_type := 3; td_rels := [mk_rel 2 This [mk_restr 1 RObj 0; mk_restr 1 RWild 0]] |};
+    {| td_type := 4; td_rels := [mk_rel 3 This [mk_restr 3 RObj 0];
+                                 mk_rel 2 This [mk_restr 1 RObj 0; mk_restr 2 (RSet 1) 1];
+                                 mk_rel 4 This [mk_restr 1 RObj 0];
+                                 mk_rel 5 (Union [Computed 2; Computed 4; TTU 3 2]) [];
+                                 mk_rel 6 (Inter [Computed 4; Computed 5]) []] |} ].
+Definition ex_store : list tuple :=
+  [ mk_tuple (mk_obj 2 1) 1 (SObj (mk_obj 1 1)) 0 T;
+    mk_tuple (mk_obj 2 2) 1 (SSet (mk_obj 2 1) 1) 0 T;
+    mk_tuple (mk_obj 2 1) 1 (SSet (mk_obj 2 2) 1) 0 T;
+    mk_tuple (mk_obj 4 1) 2 (SSet (mk_obj 2 2) 1) 1 T;
+    mk_tuple (mk_obj 4 1) 2 (SSet (mk_obj 2 1) 1) 1 E;
+    mk_tuple (mk_obj 4 1) 3 (SObj (mk_obj 3 1)) 0 T;
+    mk_tuple (mk_obj 3 1) 2 (SWild 1) 0 T;
+    mk_tuple (mk_obj 4 1) 4 (SObj (mk_obj 1 1)) 0 T ].
+(* doc:2#editor@group:1#member: not allowed by doc.editor's type restrictions *)
+Definition ex_bad : list tuple := [ mk_tuple (mk_obj 4 2) 4 (SSet (mk_obj 2 1) 1) 0 T ].
+Definition ex_subj : subject := SObj (mk_obj 1 1).
+Definition ex_pathx : list (tid * rid) := [(2, 1); (3, 2); (4, 3); (4, 2); (4, 4); (4, 5); (4, 6)].
+Definition ex_atoms : list atom :=
+  [(mk_obj 2 1, 1); (mk_obj 2 2, 1); (mk_obj 3 1, 2);
+   (mk_obj 4 1, 3); (mk_obj 4 1, 2); (mk_obj 4 1, 4); (mk_obj 4 1, 5); (mk_obj 4 1, 6)].
